@@ -28,6 +28,12 @@ template<int L, class T> static void run(Rng& g, int n) {
 	for (int it = 0; it < n; ++it) {
 		int kind = it % 5; auto a = rnd<L, T>(g, kind), b = rnd<L, T>(g, kind == 1 || kind == 2 ? 0 : kind), c = rnd<L, T>(g, 4);
 		LD aa = ldot(a, a), bb = ldot(b, b);
+		// proj / perp = the defining formula on every magnitude whose squared norms stay in range (x and the normal of the same tiny / huge scale, and of mixed scales)
+		{ glm::vec<L, T> nrm = (it % 2) ? rnd<L, T>(g, kind) : b; LD nn = ldot(nrm, nrm);
+		  if (nn > 0 && (kind != 3 || L > 0)) { LD dx = ldot(a, nrm); count("proj" + sfx); auto pr = glm::proj(a, nrm); auto pe = glm::perp(a, nrm); LD tolp = 64 * eps * sqrtl(aa) + (LD)std::numeric_limits<T>::min(); bool okp = true, oke = true;
+		    for (int i = 0; i < L; ++i) { LD want = dx / nn * (LD)nrm[i]; if (!(fabsl((LD)pr[i] - want) <= tolp)) okp = false; if (!(fabsl((LD)pe[i] - ((LD)a[i] - want)) <= tolp)) oke = false; }
+		    if (!okp) fail("proj" + sfx, kind == 1 ? "tiny" : kind == 2 ? "huge" : "value", vs(a) + " onto " + vs(nrm), "(x.n / n.n) n", vs(pr));
+		    if (!oke) fail("perp" + sfx, kind == 1 ? "tiny" : kind == 2 ? "huge" : "value", vs(a) + " against " + vs(nrm), "x - proj(x, n)", vs(pe)); } }
 		// dot / length / distance
 		{ count("dot" + sfx); LD ab = 0, mag = 0; for (int i = 0; i < L; ++i) { ab += (LD)a[i] * b[i]; mag += fabsl((LD)a[i] * b[i]); } LD got = glm::dot(a, b); if (!(fabsl(got - ab) <= 8 * eps * mag + std::numeric_limits<T>::denorm_min())) fail("dot" + sfx, "value", vs(a) + "." + vs(b), str((double)ab), str((double)got)); }
 		if (aa > std::numeric_limits<T>::min() * 1e6L && aa < std::numeric_limits<T>::max() / 1e6L) {
